@@ -368,6 +368,7 @@ class WritableStream(io.RawIOBase):
         self._toggle = 0
         self._exp_header = None
         self._done = False
+        self._error = None
 
         if size is None or size < 1 or size > 4 or force_segment:
             # Initiate segmented download
@@ -395,6 +396,9 @@ class WritableStream(io.RawIOBase):
         number of bytes written. This will be at most 7 bytes.
         """
         if self._done:
+            if self._error is not None:
+                # The transfer has failed, a retried write fails the same way
+                raise self._error
             raise RuntimeError("All expected data has already been transmitted")
         if self._exp_header is not None:
             # Expedited download
@@ -429,12 +433,18 @@ class WritableStream(io.RawIOBase):
             command |= (7 - bytes_sent) << 1
             request[0] = command
             request[1:bytes_sent + 1] = b[0:bytes_sent]
-            response = self.sdo_client.request_response(request)
-            res_command, = struct.unpack("B", response[0:1])
-            if res_command & 0xE0 != RESPONSE_SEGMENT_DOWNLOAD:
-                raise SdoCommunicationError(
-                    f"Unexpected response 0x{res_command:02X} "
-                    f"(expected 0x{RESPONSE_SEGMENT_DOWNLOAD:02X})")
+            try:
+                response = self.sdo_client.request_response(request)
+                res_command, = struct.unpack("B", response[0:1])
+                if res_command & 0xE0 != RESPONSE_SEGMENT_DOWNLOAD:
+                    raise SdoCommunicationError(
+                        f"Unexpected response 0x{res_command:02X} "
+                        f"(expected 0x{RESPONSE_SEGMENT_DOWNLOAD:02X})")
+            except (SdoCommunicationError, SdoAbortedError) as exc:
+                # The transfer is over, nothing more can be sent
+                self._done = True
+                self._error = exc
+                raise
         # Advance position
         self.pos += bytes_sent
         return bytes_sent
